@@ -97,6 +97,32 @@ def gen_guard(ctx, P):
     return cases
 
 
+def gen_guard_composed(ctx, P):
+    """sequential scopes (no synchronisation between them) and nested guards (inner: split communicators, outer: world)"""
+    rng = ctx.rng("guard2", P)
+    q = ctx.quick
+    cases = []
+    pool = guard_programs(P, 3, rng)
+    for _ in range(250 if q else 2500):
+        kind = rng.choice(["H", "W", "C", "S", "T", "X", "N", "M"])
+        col = rng.choice(color_patterns(P)) if kind in "ST" else ("".join(str(i) for i in range(P)) if kind in "NX" else "0" * P)
+        nsc = rng.choice([2, 2, 3, 4])
+        acts = "".join(rng.choice("110") for _ in range(nsc))
+        progs = [rng.choice(pool) if rng.random() < 0.8 else ["o" * rng.randrange(1, 4)] * P for _ in range(nsc)]
+        outs = [";".join(progs[j][r] for j in range(nsc)) for r in range(P)]
+        scr = [";".join(script_of(acts[j] == "1", progs[j][r]) for j in range(nsc)) for r in range(P)]
+        cases.append("Q %d %s %s %s %s %s" % (P, kind, acts, col, ",".join(outs), ",".join(scr)))
+    cols = color_patterns(P)
+    for S in (1, 2, 3):
+        progs = guard_programs(P, S, rng)
+        progs = [pr for pr in progs if len(pr[0]) == S]
+        per = max(1, (40 if q else 400) // max(1, len(cols)))
+        for col in cols:
+            for outs in (progs if (P <= 2 or (not q and P <= 3 and S <= 2)) else rng.sample(progs, min(per, len(progs)))):
+                cases.append("N %d %s %d %s %s" % (P, col, S, ",".join(outs), ",".join(script_of(True, o) for o in outs)))
+    return cases
+
+
 def all_orders(maxlen, alphabet="vrwg"):
     return ["".join(t) for n in range(1, maxlen + 1) for t in itertools.product(alphabet, repeat=n)]
 
@@ -269,7 +295,8 @@ def run_model(ctx, model, cases, impl=None, tag="model"):
 
 # ----------------------------------------------------------------------------- comparison / oracle
 def guard_tokens(line):
-    return [x.strip() for x in line.split("|")]
+    """per rank ('|'), per scope (';' sequential scopes), inner/outer ('/' nested guards)"""
+    return [x.strip() for x in re.split(r"[|;/]", line)]
 
 
 def guard_equal(impl, model):
@@ -302,10 +329,10 @@ def guard_oracle(case, impl, spec):
         ex = strip_nerr(x.partition(":")[0]); ey = strip_nerr(y.partition(":")[0])
         if ex != ey:
             if ey.startswith("G"):
-                return "agreement:missed", "rank %d left with %s but a process failed in that section: MPIGuardError expected at op %s" % (r, ex, ey[1:])
+                return "agreement:missed", "observation %d (ranks|scopes;inner/outer) left with %s but a process failed in that section: MPIGuardError expected at op %s" % (r, ex, ey[1:])
             if ex.startswith("G"):
-                return "agreement:spurious", "rank %d threw MPIGuardError (%s) but the property prescribes %s" % (r, ex, ey)
-            return "exit", "rank %d left with %s, expected %s" % (r, ex, ey)
+                return "agreement:spurious", "observation %d threw MPIGuardError (%s) but the property prescribes %s" % (r, ex, ey)
+            return "exit", "observation %d left with %s, expected %s" % (r, ex, ey)
     return None
 
 
@@ -326,7 +353,15 @@ def future_sig(case, impl, verdict):
 
 # ----------------------------------------------------------------------------- main
 def build(ctx):
-    model = V.build_model(ctx)
+    for attempt in range(3):
+        try:
+            model = V.build_model(ctx)
+            break
+        except V.BuildError as e:      # same Params_gen.vo race as in the Coq stage (see run())
+            if "inconsistent assumptions" in str(e) and attempt < 2:
+                time.sleep(2 + 3 * attempt)
+                continue
+            raise
     impl = V.cxx(ctx, [SRC], ctx.path("impl"), mpi=True, opt="-O1")
     return model, impl
 
@@ -338,16 +373,17 @@ def evaluate(ctx, cases, io, mo, stats):
         if a.startswith("NOT-RUN"):
             stats["not_run"] = stats.get("not_run", 0) + 1
             continue
-        if t[0] == "G":
+        if t[0] in "GQN":
             stats["guard"] += 1
             verdict = guard_oracle(c, a, s)
+            gk = {"G": t[2], "Q": "seq:" + t[2], "N": "nested"}[t[0]]
             if verdict is not None:
                 stats["oracle_rejections"] += 1
-                ctx.violation("C19:guard:%s:%s" % (t[2], verdict[0]),
+                ctx.violation("C19:guard:%s:%s" % (gk, verdict[0]),
                               {"case": c, "impl": a, "model": m, "spec": s, "oracle": verdict[1], "replay_cmd": "bin/check C19 --replay <this file>"})
             elif not guard_equal(a, m):
                 stats["disagreements"] += 1
-                ctx.violation("corr:C19/guard:%s" % t[2], {"broken": "corr:C19/guard (script semantics / collective count / error count)",
+                ctx.violation("corr:C19/guard:%s" % gk, {"broken": "corr:C19/guard (script semantics / collective count / error count)",
                                                            "case": c, "impl": a, "model": m, "spec": s, "oracle": "accepts impl output"}, found_input=False)
         else:
             stats["future"] += 1
@@ -360,8 +396,26 @@ def evaluate(ctx, cases, io, mo, stats):
                                                                        "oracle": "accepts impl output"}, found_input=False)
 
 
+def params_hook(ctx):
+    V.sh([sys.executable, os.path.join(V.VERIF, "tools", "extract_params.py"), ctx.repo], check=True)
+
+
 def run(ctx):
-    V.coq_stage(ctx)
+    ctx.params_hook = params_hook
+    for attempt in range(3):
+        nv = len(ctx.viol)
+        if V.coq_stage(ctx):
+            break
+        # coq/Params_gen.vo is shared by all properties and regenerated by every check run: a concurrent run of another
+        # property between the dependency build and the re-check of Properties_C19.v yields "inconsistent assumptions over
+        # library Params_gen", which says nothing about the theorems - rebuild and check again
+        log = (ctx.coq or {}).get("log", "")
+        if "inconsistent assumptions" in log and "Params_gen" in log and attempt < 2:
+            del ctx.viol[nv:]
+            ctx.notes.append("coq stage repeated: Params_gen.vo was rebuilt by a concurrent check run")
+            time.sleep(2 + 3 * attempt)
+            continue
+        break
     model, impl = build(ctx)
     Ps = [1, 2, 3, 4] if ctx.quick else [1, 2, 3, 4, 5, 6]
     stats = {"guard": 0, "future": 0, "oracle_rejections": 0, "disagreements": 0}
@@ -373,6 +427,7 @@ def run(ctx):
     for P in Ps:
         cases = [c for c in corpus if int(c.split()[1]) == P]
         cases += gen_guard(ctx, P)
+        cases += gen_guard_composed(ctx, P)
         if P <= 4:
             cases += gen_future(ctx, P)
         elif not ctx.quick:
@@ -381,7 +436,7 @@ def run(ctx):
         m1 = run_model(ctx, model, cases, tag="model1.P%d" % P)
         keep = []
         for c, (m, s) in zip(cases, m1):
-            if c.startswith("G") and c.split()[5] == "U" and ("STUCK" in m or "OUTOFFUEL" in m):
+            if c.startswith("G ") and c.split()[5] == "U" and ("STUCK" in m or "OUTOFFUEL" in m):
                 dropped += 1
                 if "STUCK" in m and P == 2 and c.split()[2] in "HCW" and len(predicted_deadlocks) < 2:
                     predicted_deadlocks.append((c, m))
@@ -403,10 +458,11 @@ def run(ctx):
         cases_by_P[P] = cases
         for c in cases:
             t = c.split()
-            key = "guard:" + t[2] + ":" + t[5] if t[0] == "G" else "future:%s:%s:%s" % (t[2], t[3], t[4])
+            key = ("guard:" + t[2] + ":" + t[5] if t[0] == "G" else "guard-sequential:" + t[2] if t[0] == "Q" else "guard-nested:S%s" % t[3] if t[0] == "N"
+                   else "future:%s:%s:%s" % (t[2], t[3], t[4]))
             dist[key] = dist.get(key, 0) + 1
-            if t[0] == "G":
-                if re.search(r"[tf]", t[7]):
+            if t[0] in "GQN":
+                if re.search(r"[tf]", t[-1]):
                     nontrivial.add(c)
             elif len(t[9]) >= 2:
                 nontrivial.add(c)
@@ -474,7 +530,7 @@ def replay(ctx, path):
     mo = run_model(ctx, model, [case], impl=io, tag="replay.model")
     m, s = mo[0]
     print("case  :", case); print("impl  :", io[0]); print("model :", m)
-    if case.startswith("G"):
+    if case[0] in "GQN":
         v = guard_oracle(case, io[0], s)
         print("spec  :", s); print("oracle:", v[1] if v else "accepts")
         return 1 if v else 0
